@@ -50,6 +50,17 @@ CHECKS["C02"] = dict(
     design="§7 C02",
 )
 
+CHECKS["C15"] = dict(
+    text=("Lean theorems for every interleaving of groups, every n and every counter width w: under rows < 2^(w-1) `_find_nth` returns the n-th row of "
+          "each group from the start / from the end (-1 when too short, the assert never fires), `_find_first_or_last_n` returns the first / last n "
+          "rows in ascending position; selected rows carry the group's code (never a null key). The obligations seen_width_* tie w to the dtype the "
+          "current source allocates (extracted by the translator): w = 64, so the bound holds for any array. Correspondence: kernels and public "
+          "head/tail/nth(keep_input_index=True) incl. groups of 32766..70000 rows, arbitrary index, multi-column values."),
+    note="_get_row_selection (positional take, index restoration, ordering) is tied by correspondence only; row identity at the public level through unique values.",
+    technique="Lean 4 proof (per-group fold + wrapping-counter invariant, width extracted from source) + boundary-size correspondence",
+    design="§7 C15",
+)
+
 NOT_APPLICABLE: list[dict] = []
 
 
